@@ -9,7 +9,8 @@
    Actions transcribe entity/dag/entity_actions.go Remove/RemoveAll, entities/identity/identity_actions.go
    Remove/RemoveAll, cache/subcache.go Remove/RemoveAll (+ Load/Build), cache/repo_cache_common.go RemoveAll,
    commands/bug/bug_rm.go, commands/wipe.go, repository/gogit_config.go RemoveAll, and MergeAll without fetch.
-   The transcriptions named *_v0 are the code before the two repairs of this property (kept to state the defects). *)
+   The transcriptions named *_v0 are the code before the first two repairs of this property, those named *_v1 the code
+   before the four repairs that followed an audit of the tree (kept to state the defects). *)
 From Coq Require Import List Arith NArith Bool Lia Sorting.Permutation.
 Import ListNotations.
 
@@ -69,6 +70,19 @@ Proof. unfold mem_ent. rewrite existsb_exists. split.
 Fixpoint prefixb (p i : id) : bool :=
   match p, i with [], _ => true | x :: p', y :: i' => N.eqb x y && prefixb p' i' | _ :: _, [] => false end.
 
+(* entity.Id.Validate: 64 characters, each of a-z or 0-9 *)
+Definition id_char (c : N) : bool := (N.leb 97 c && N.leb c 122) || (N.leb 48 c && N.leb c 57).
+Definition valid_id (i : id) : bool := Nat.eqb (length i) 64 && forallb id_char i.
+
+(* What is git-bug's among the refs: everything under refs/<ns>/ (its own namespace, whatever the name), and under
+   refs/remotes/<remote>/<ns>/ what is named by a valid id. The rest of refs/remotes/<remote>/<ns>/ is where git keeps
+   the remote-tracking branches of the user's branches called <ns>/<something>. *)
+Definition is_gbref (n : rname) : bool :=
+  match rk n with
+  | KOther => false
+  | _ => match rl n with Local => true | Track _ => valid_id (rid n) end
+  end.
+
 (* ------------------------------------------------------------------ state *)
 
 (* the [git-bug] section: option "identity" (its value is the user's identity id), other options (names),
@@ -109,9 +123,11 @@ Definition ent_targets (rs : list N) (k : kind) (i : id) : list rname :=
 Definition ent_remove_refs (rs : list N) (k : kind) (i : id) (l : list (rname * N)) :=
   fold_left (fun acc n => remove_ref n acc) (ent_targets rs k i) l.
 
-(* bug.Remove never fails; identity.Remove reports NotFound when it finds none of the refs (all ids have the
-   same length, so its prefix listing "refs/identities/<id>*" is an exact match) *)
+(* Both validate the id first ("invalid id": nothing is touched). bug.Remove then never fails; identity.Remove reports
+   NotFound when it finds none of the refs (a valid id has the full length, so its prefix listing
+   "refs/identities/<id>*" is an exact match). *)
 Definition ent_remove (k : kind) (i : id) (s : st) : st * outcome :=
+  if negb (valid_id i) then (s, EOther) else
   match k with
   | KOther => (s, EOther)
   | KBug => (with_refs s (ent_remove_refs (remotes s) k i (refs s)), OOk)
@@ -126,11 +142,18 @@ Definition local_ids (k : kind) (l : list (rname * N)) : list id :=
 (* before the repair: Remove for every local id *)
 Definition ent_remove_all_v0 (rs : list N) (k : kind) (l : list (rname * N)) :=
   fold_left (fun acc i => ent_remove_refs rs k i acc) (local_ids k l) l.
-(* the repair adds: every ref under refs/remotes/<remote>/<ns>/ for each configured remote *)
-Definition drop_tracking (r : N) (k : kind) (l : list (rname * N)) :=
+(* the first repair added: every ref under refs/remotes/<remote>/<ns>/ for each configured remote *)
+Definition drop_tracking_v1 (r : N) (k : kind) (l : list (rname * N)) :=
   filter (fun p => negb (kind_eqb (rk (fst p)) k && loc_eqb (rl (fst p)) (Track r))) l.
+(* RemoveAll as it is now: every ref listed under refs/<ns>/ is removed itself (no detour through Remove(id), which
+   refuses names that are not ids); then, for each configured remote, every refs/remotes/<remote>/<ns>/<id> whose last
+   element is a valid id *)
+Definition drop_local (k : kind) (l : list (rname * N)) :=
+  filter (fun p => negb (kind_eqb (rk (fst p)) k && loc_eqb (rl (fst p)) Local)) l.
+Definition drop_tracking (r : N) (k : kind) (l : list (rname * N)) :=
+  filter (fun p => negb (kind_eqb (rk (fst p)) k && loc_eqb (rl (fst p)) (Track r) && valid_id (rid (fst p)))) l.
 Definition ent_remove_all (rs : list N) (k : kind) (l : list (rname * N)) :=
-  fold_left (fun acc r => drop_tracking r k acc) rs (ent_remove_all_v0 rs k l).
+  fold_left (fun acc r => drop_tracking r k acc) rs (drop_local k l).
 
 (* ------------------------------------------------------------------ cache level *)
 
@@ -308,7 +331,9 @@ Inductive action :=
 | ARebuild                              (* cache files deleted, cache opened *)
 | AReopen                               (* close, NewRepoCache *)
 | ACacheMerge (r : N)                   (* RepoCache.MergeAll(r), no fetch *)
-| AEntMerge (r : N).                    (* identity.MergeAll + bug.MergeAll, no fetch *)
+| AEntMerge (r : N)                     (* identity.MergeAll + bug.MergeAll, no fetch *)
+| AStaleCommit (k : kind) (i : id).     (* an edit + Commit through a BugCache / IdentityCache of (k, i) that was resolved
+                                           before (k, i) was removed through the same cache *)
 
 Definition step (post : st) (a : action) (s : st) : st * outcome :=
   match a with
@@ -325,6 +350,7 @@ Definition step (post : st) (a : action) (s : st) : st * outcome :=
   | AReopen => (load s, OOk)
   | ACacheMerge r => (cache_merge post r s, OOk)
   | AEntMerge r => (ent_merge post r s, OOk)
+  | AStaleCommit _ _ => (s, EOther)     (* the instance is marked as removed: ErrEntityRemoved before anything is written *)
   end.
 
 Fixpoint run (l : list (st * action)) (s : st) : st :=
@@ -389,7 +415,10 @@ Proof. unfold ent_remove_all_v0.
   - rewrite andb_false_r. reflexivity.
   - rewrite IH. unfold is_target. destruct (kind_eqb (rk n) k), (id_eqb (rid n) a), (configuredb rs (rl n)); cbn; reflexivity. Qed.
 
-Definition keep (rs : list N) (k : kind) (p : rname * N) : bool := negb (kind_eqb (rk (fst p)) k && configuredb rs (rl (fst p))).
+(* where RemoveAll sweeps: the whole local namespace; under a configured remote, the names that are valid ids *)
+Definition swept (rs : list N) (n : rname) : bool :=
+  match rl n with Local => true | Track r => memN r rs && valid_id (rid n) end.
+Definition keep (rs : list N) (k : kind) (p : rname * N) : bool := negb (kind_eqb (rk (fst p)) k && swept rs (fst p)).
 
 Lemma In_local_ids k l i : In i (local_ids k l) <-> exists h, In (mkrn k Local i, h) l.
 Proof. unfold local_ids. rewrite in_map_iff. split.
@@ -403,16 +432,19 @@ Proof. unfold local_ids. rewrite in_map_iff. split.
 Lemma not_mem_forallb r rs : forallb (fun r' => negb (N.eqb r r')) rs = negb (memN r rs).
 Proof. unfold memN. induction rs as [|x rs IH]; cbn; [reflexivity|]. rewrite IH, negb_orb. reflexivity. Qed.
 
-(* the repaired RemoveAll keeps exactly the refs that are not of this kind at a local or configured-remote place *)
+Lemma not_mem_forallb_and r rs b : forallb (fun r' => negb (N.eqb r r' && b)) rs = negb (memN r rs && b).
+Proof. unfold memN. induction rs as [|x rs IH]; cbn; [reflexivity|]. rewrite IH.
+  destruct (N.eqb r x), (existsb (N.eqb r) rs), b; reflexivity. Qed.
+
+(* RemoveAll keeps exactly the refs that are not of this kind, or lie under a remote that is not configured, or are
+   remote-tracking refs whose name is not a valid id *)
 Lemma ent_remove_all_filter rs k l : ent_remove_all rs k l = filter (keep rs k) l.
-Proof. unfold ent_remove_all, drop_tracking.
-  etransitivity; [apply (fold_filter_eq (fun (r : N) (p : rname * N) => negb (kind_eqb (rk (fst p)) k && loc_eqb (rl (fst p)) (Track r))))|].
-  rewrite ent_remove_all_v0_filter, filter_filter. apply filter_ext_in. intros [n h] H. unfold keep. cbn [fst].
-  destruct (kind_eqb_spec (rk n) k) as [K|K]; cbn.
-  - destruct n as [k' l' i']; cbn in *. subst k'. destruct l' as [|r]; cbn.
-    + replace (existsb (id_eqb i') (local_ids k l)) with true; [reflexivity|]. symmetry. apply existsb_exists.
-      exists i'. split; [apply In_local_ids; exists h; exact H|apply id_eqb_refl].
-    + rewrite not_mem_forallb. destruct (memN r rs), (existsb (id_eqb i') (local_ids k l)); reflexivity.
+Proof. unfold ent_remove_all, drop_tracking, drop_local.
+  etransitivity; [apply (fold_filter_eq (fun (r : N) (p : rname * N) =>
+                           negb (kind_eqb (rk (fst p)) k && loc_eqb (rl (fst p)) (Track r) && valid_id (rid (fst p)))))|].
+  rewrite filter_filter. apply filter_ext. intros [n h]. unfold keep, swept. cbn [fst].
+  destruct (kind_eqb (rk n) k); cbn.
+  - destruct (rl n) as [|r0]; cbn; [reflexivity|]. apply not_mem_forallb_and.
   - apply forallb_true. Qed.
 
 Lemma In_ent_remove_refs rs k i l n h :
@@ -446,14 +478,17 @@ Proof. intros W H. destruct (rl n) as [|r] eqn:E; cbn; [reflexivity|]. apply mem
 (* -- entity-level removal -- *)
 Lemma ent_remove_ok_refs k i s s' : ent_remove k i s = (s', OOk) ->
   s' = with_refs s (ent_remove_refs (remotes s) k i (refs s)) /\ k <> KOther.
-Proof. unfold ent_remove. destruct k; [| |discriminate].
+Proof. unfold ent_remove. destruct (valid_id i); cbn [negb]; [|discriminate]. destruct k; [| |discriminate].
   - intros E; inversion E; split; [reflexivity|discriminate].
   - destruct (existsb _ _); intros E; inversion E; split; [reflexivity|discriminate]. Qed.
 Lemma ent_remove_err k i s s' o : ent_remove k i s = (s', o) -> o <> OOk -> s' = s.
-Proof. unfold ent_remove. destruct k.
+Proof. unfold ent_remove. destruct (valid_id i); cbn [negb]; [|intros E; inversion E; congruence]. destruct k.
   - intros E; inversion E; congruence.
   - destruct (existsb _ _); intros E; inversion E; congruence.
   - intros E; inversion E; congruence. Qed.
+(* what is not a complete id is refused and nothing is touched (dag.Remove and identity.Remove validate the id) *)
+Lemma ent_remove_invalid k i s : valid_id i = false -> ent_remove k i s = (s, EOther).
+Proof. intros V. unfold ent_remove. rewrite V. reflexivity. Qed.
 
 Lemma removed_refs_exact k i s : wf s ->
   no_ref k i (with_refs s (ent_remove_refs (remotes s) k i (refs s))) /\
@@ -628,7 +663,8 @@ Proof. intros G. destruct a; cbn [step].
   - cbn. apply gone_rebuild; exact G.
   - cbn. apply gone_load; exact G.
   - cbn. apply gone_cache_merge; exact G.
-  - cbn. apply gone_ent_merge; exact G. Qed.
+  - cbn. apply gone_ent_merge; exact G.
+  - exact G. Qed.
 
 Lemma gone_run l : forall k i s, gone k i s -> gone k i (run l s).
 Proof. induction l as [|[post a] l IH]; intros k i s G; cbn [run]; [exact G|]. apply IH. apply gone_step. exact G. Qed.
@@ -676,7 +712,8 @@ Proof. intros W. destruct a; cbn [step].
   - cbn. apply wf_load; exact W.
   - cbn. unfold cache_merge. destruct (user_ok s); [|exact W]. apply wf_fold; [|exact W]. intros s' e W'.
     unfold adopt_cache. apply (wf_adopt_ref post (fst e) (snd e) s' W').
-  - cbn. unfold ent_merge. apply wf_fold; [|exact W]. intros s' e W'. apply wf_adopt_ref; exact W'. Qed.
+  - cbn. unfold ent_merge. apply wf_fold; [|exact W]. intros s' e W'. apply wf_adopt_ref; exact W'.
+  - exact W. Qed.
 
 (* -- the single-entity removals through the cache and the command line, and what they resolve to -- *)
 Definition removes (a : action) (s : st) (k : kind) (i : id) : Prop :=
@@ -732,7 +769,7 @@ Proof. apply not_true_is_false. intros H. apply existsb_exists in H. destruct H 
   exists n. split; [exact Hn|apply rname_eqb_refl]. Qed.
 
 Lemma ent_remove_idem k i s : fst (ent_remove k i (fst (ent_remove k i s))) = fst (ent_remove k i s).
-Proof. unfold ent_remove. destruct k.
+Proof. unfold ent_remove. destruct (valid_id i); cbn [negb]; [|reflexivity]. destruct k.
   - cbn [fst refs remotes with_refs]. rewrite ent_remove_refs_idem. reflexivity.
   - destruct (existsb _ (ent_targets (remotes s) KIdent i)) eqn:E; cbn [fst refs remotes with_refs].
     + rewrite no_target_after. reflexivity.
@@ -846,18 +883,25 @@ Proof. intros R. destruct a; cbn in R; try contradiction; cbn [step].
 
 (* -- wipe / RemoveAll leave nothing behind -- *)
 Lemma keep_both_other s n h : wf s -> In (n, h) (refs s) ->
-  keep (remotes s) KBug (n, h) = true -> keep (remotes s) KIdent (n, h) = true -> rk n = KOther.
-Proof. intros W H A B. unfold keep in *. cbn in *. rewrite (wf_configuredb s n h W H) in *.
-  destruct (rk n); cbn in *; congruence. Qed.
+  keep (remotes s) KBug (n, h) = true -> keep (remotes s) KIdent (n, h) = true -> is_gbref n = false.
+Proof. intros W H A B. unfold keep, swept, is_gbref in *. cbn [fst] in *. pose proof (wf_configuredb s n h W H) as C.
+  destruct (rk n); [| |reflexivity]; (destruct (rl n) as [|r]; cbn in *; [discriminate|]; rewrite C in *; cbn in *;
+    destruct (valid_id (rid n)); [discriminate|reflexivity]). Qed.
+
+(* what is not git-bug's is kept, whatever the remotes *)
+Lemma keep_foreign rs k n h : k <> KOther -> is_gbref n = false -> keep rs k (n, h) = true.
+Proof. unfold keep, swept, is_gbref. cbn [fst]. intros K. destruct (rk n), k; cbn; intros G; try reflexivity; try congruence;
+  (revert G; destruct (rl n); intros G; [discriminate|]); rewrite G, andb_false_r; reflexivity. Qed.
 
 Lemma all_removed_refs s n h : wf s ->
-  In (n, h) (filter (keep (remotes s) KBug) (filter (keep (remotes s) KIdent) (refs s))) <-> In (n, h) (refs s) /\ rk n = KOther.
+  In (n, h) (filter (keep (remotes s) KBug) (filter (keep (remotes s) KIdent) (refs s))) <-> In (n, h) (refs s) /\ is_gbref n = false.
 Proof. intros W. rewrite !filter_In. split.
   - intros [[H B] A]. split; [exact H|]. eapply keep_both_other; eauto.
-  - intros [H K]. unfold keep; cbn. rewrite K. cbn. auto. Qed.
+  - intros [H K]. split; [split; [exact H|]|]; (apply keep_foreign; [discriminate|exact K]). Qed.
 
+(* nothing of git-bug is left among the refs, everything else is; the cache is empty *)
 Definition clean (s s' : st) : Prop :=
-  (forall n h, In (n, h) (refs s') <-> In (n, h) (refs s) /\ rk n = KOther) /\
+  (forall n h, In (n, h) (refs s') <-> In (n, h) (refs s) /\ is_gbref n = false) /\
   exc s' = [] /\ idx s' = [] /\ remotes s' = remotes s.
 
 Lemma wipe_clean post s : wf s ->
@@ -872,6 +916,23 @@ Lemma removeall_clean post s : wf s ->
 Proof. intros W. cbn [step fst]. unfold cache_remove_all, cache_remove_all_with. cbn [refs exc idx conf files remotes with_cache with_refs].
   split; [|split; reflexivity]. split; [|repeat split].
   intros n h. rewrite !ent_remove_all_filter. apply all_removed_refs. exact W. Qed.
+
+(* -- RemoveAll and wipe spare what is not git-bug's: foreign refs, and under refs/remotes/<remote>/<ns>/ the names that
+      are not ids (remote-tracking branches of the user's branches <ns>/<something>) -- *)
+Definition removes_everything (a : action) : Prop :=
+  match a with AEntRemoveAll KBug | AEntRemoveAll KIdent | ACacheRemoveAll | ACliWipe => True | _ => False end.
+
+Lemma removeall_spares_foreign post a s n h : removes_everything a ->
+  In (n, h) (refs s) -> is_gbref n = false -> In (n, h) (refs (fst (step post a s))).
+Proof. intros R H G.
+  assert (K : forall rs k, k <> KOther -> keep rs k (n, h) = true) by (intros; apply keep_foreign; assumption).
+  destruct a; cbn in R; try contradiction.
+  - destruct k; try contradiction; cbn; apply In_ent_remove_all; (split; [exact H|apply K; discriminate]).
+  - cbn. apply In_ent_remove_all. split; [apply In_ent_remove_all; split; [exact H|]|]; apply K; discriminate.
+  - cbn [step]. rewrite cli_wipe_closed. cbn. rewrite !filter_In. split; [split; [exact H|]|]; apply K; discriminate. Qed.
+
+Lemma user_branch_foreign n r : rl n = Track r -> valid_id (rid n) = false -> is_gbref n = false.
+Proof. unfold is_gbref. intros -> ->. destruct (rk n); reflexivity. Qed.
 
 (* -- the code before the repairs -- *)
 (* with nothing but (at most) the identity in the [git-bug] section, wipe always stopped with an error and left the storage *)
@@ -901,19 +962,107 @@ Lemma removeall_v0_refuted : exists s, wf s /\ exists n h, In (n, h) (refs (cach
 Proof. exists s_fetched. split; [exact s_fetched_wf|]. exists (mkrn KBug (Track 1%N) [97%N]), 7%N.
   split; [exact removeall_v0_leaves|]. split; [reflexivity|left; reflexivity]. Qed.
 
-(* a small repository in which everything above applies: user 'u', bugs 'ab' (also on remote 1) and 'ac', a foreign ref *)
+(* a small repository in which everything above applies: user 'uuu...u', bugs 'aaa...ab' (also on remote 1) and 'aaa...ac'
+   (ids of 64 characters), a foreign ref, the remote-tracking branch of the user's branch bugs/fix (on remote 1) and a
+   copy 'old' of a bug ref kept inside refs/bugs/ *)
+Definition id_of (c : N) : id := repeat 97%N 63 ++ [c].
+Definition id_ab : id := id_of 98%N.
+Definition id_ac : id := id_of 99%N.
+Definition id_u : id := repeat 117%N 64.
+Definition name_fix : id := [102%N; 105%N; 120%N].
+Definition name_old : id := [111%N; 108%N; 100%N].
 Definition s_demo : st :=
   mkst [1%N]
-       [(mkrn KIdent Local [117%N], 1%N); (mkrn KBug Local [97%N; 98%N], 2%N); (mkrn KBug (Track 1%N) [97%N; 98%N], 2%N);
-        (mkrn KBug Local [97%N; 99%N], 3%N); (mkrn KOther Local [114%N], 9%N)]
-       [((KIdent, [117%N]), 1%N); ((KBug, [97%N; 98%N]), 2%N); ((KBug, [97%N; 99%N]), 3%N)]
-       [(KIdent, [117%N]); (KBug, [97%N; 98%N]); (KBug, [97%N; 99%N])]
-       (mkcfg (Some [117%N]) [] [] [5%N]) [1%N; 2%N; 3%N; 4%N; 5%N].
+       [(mkrn KIdent Local id_u, 1%N); (mkrn KBug Local id_ab, 2%N); (mkrn KBug (Track 1%N) id_ab, 2%N);
+        (mkrn KBug Local id_ac, 3%N); (mkrn KOther Local [114%N], 9%N)]
+       [((KIdent, id_u), 1%N); ((KBug, id_ab), 2%N); ((KBug, id_ac), 3%N)]
+       [(KIdent, id_u); (KBug, id_ab); (KBug, id_ac)]
+       (mkcfg (Some id_u) [] [] [5%N]) [1%N; 2%N; 3%N; 4%N; 5%N].
+Definition s_demo2 : st :=
+  with_refs s_demo ((mkrn KBug (Track 1%N) name_fix, 9%N) :: (mkrn KBug Local name_old, 2%N) :: refs s_demo).
 Lemma s_demo_wf : wf s_demo.
-Proof. intros n h r H L. cbn in H. destruct H as [E|[E|[E|[E|[E|[]]]]]]; inversion E; subst; cbn in L; inversion L; left; reflexivity. Qed.
+Proof. intros n h r H L. unfold s_demo in H. cbn [refs] in H.
+  destruct H as [E|[E|[E|[E|[E|[]]]]]]; inversion E; subst; cbn in L; inversion L; left; reflexivity. Qed.
+Lemma s_demo2_wf : wf s_demo2.
+Proof. intros n h r H L. unfold s_demo2, s_demo in H. cbn [refs with_refs] in H.
+  destruct H as [E|[E|[E|[E|[E|[E|[E|[]]]]]]]]; inversion E; subst; cbn in L; inversion L; left; reflexivity. Qed.
 Lemma s_demo_settled : settled s_demo.
 Proof. repeat split; reflexivity. Qed.
-Lemma s_demo_removes : removes (ACliRm [97%N; 98%N]) s_demo KBug [97%N; 98%N].
+Lemma s_demo_removes : removes (ACliRm id_ab) s_demo KBug id_ab.
 Proof. repeat split; reflexivity. Qed.
+Lemma s_demo_removed : snd (cli_rm (fun _ _ c => c) id_ab s_demo) = OOk.
+Proof. reflexivity. Qed.
 Lemma s_demo_ambiguous : snd (cache_remove KBug [97%N] s_demo) = EMultiple.
 Proof. reflexivity. Qed.
+Lemma s_demo_ids : valid_id id_ab = true /\ valid_id id_u = true /\ valid_id name_fix = false /\ valid_id [] = false.
+Proof. repeat split; reflexivity. Qed.
+
+(* ================================================================== the code before the repairs that followed the audit *)
+
+(* identity.Remove did not validate its argument and lists the refs with it as a PREFIX of their names:
+   none found = NotFound, several at one place = MultipleMatch, else whatever was found is removed *)
+Definition pfx_matches (k : kind) (l : loc) (p : id) (rf : list (rname * N)) : list (rname * N) :=
+  filter (fun q => kind_eqb (rk (fst q)) k && loc_eqb (rl (fst q)) l && prefixb p (rid (fst q))) rf.
+Definition ident_remove_v1 (p : id) (s : st) : st * outcome :=
+  let groups := pfx_matches KIdent Local p (refs s) :: map (fun r => pfx_matches KIdent (Track r) p (refs s)) (remotes s) in
+  if existsb (fun g => Nat.ltb 1 (length g)) groups then (s, EMultiple)
+  else match concat groups with
+       | [] => (s, ENotFound)
+       | ms => (with_refs s (fold_left (fun acc q => remove_ref (fst q) acc) ms (refs s)), OOk)
+       end.
+(* asked to remove the identity 'u' (not an id, no such identity), it removed the identity 'uuu...u' *)
+Lemma ident_remove_v1_refuted : exists s p n, wf s /\ valid_id p = false /\ rid n <> p /\ has_ref n (refs s) = true /\
+  snd (ident_remove_v1 p s) = OOk /\ has_ref n (refs (fst (ident_remove_v1 p s))) = false.
+Proof. exists s_demo, [117%N], (mkrn KIdent Local id_u). split; [exact s_demo_wf|].
+  split; [reflexivity|]. split; [intros E; vm_compute in E; discriminate E|]. repeat split; vm_compute; reflexivity. Qed.
+
+(* RemoveAll went through Remove(id) for every name listed under refs/<ns>/ and stopped at the first one that is not a
+   valid id; its sweep of refs/remotes/<remote>/<ns>/ removed every name *)
+Fixpoint remove_ids_v1 (rs : list N) (k : kind) (ids : list id) (l : list (rname * N)) : list (rname * N) * outcome :=
+  match ids with
+  | [] => (l, OOk)
+  | i :: t => if valid_id i then remove_ids_v1 rs k t (ent_remove_refs rs k i l) else (l, EOther)
+  end.
+Definition ent_remove_all_v1 (rs : list N) (k : kind) (l : list (rname * N)) : list (rname * N) * outcome :=
+  match remove_ids_v1 rs k (local_ids k l) l with
+  | (l1, OOk) => (fold_left (fun acc r => drop_tracking_v1 r k acc) rs l1, OOk)
+  | r => r
+  end.
+
+Lemma remove_ids_v1_stuck rs k i : valid_id i = false -> forall ids l, In i ids -> In i (local_ids k l) ->
+  snd (remove_ids_v1 rs k ids l) = EOther /\ In i (local_ids k (fst (remove_ids_v1 rs k ids l))).
+Proof. intros V. induction ids as [|j ids IH]; intros l Hi Hl; [destruct Hi|]. cbn [remove_ids_v1].
+  destruct (valid_id j) eqn:Vj; [|split; [reflexivity|exact Hl]].
+  destruct Hi as [->|Hi]; [congruence|]. apply IH; [exact Hi|].
+  apply In_local_ids in Hl. destruct Hl as [h Hl]. apply In_local_ids. exists h. apply In_ent_remove_refs. split; [exact Hl|].
+  unfold is_target. cbn. destruct (id_eqb_spec i j) as [E|E]; [congruence|]. rewrite andb_false_r. reflexivity. Qed.
+
+(* whatever the repository: one name under refs/<ns>/ that is not a valid id, and RemoveAll (hence wipe) fails and leaves
+   that ref where it is, so that repeating it fails the same way *)
+Lemma removeall_v1_stuck rs k l i : In i (local_ids k l) -> valid_id i = false ->
+  snd (ent_remove_all_v1 rs k l) = EOther /\ In i (local_ids k (fst (ent_remove_all_v1 rs k l))).
+Proof. intros H V. destruct (remove_ids_v1_stuck rs k i V (local_ids k l) l H H) as [A B]. unfold ent_remove_all_v1.
+  destruct (remove_ids_v1 rs k (local_ids k l) l) as [l1 o]. cbn in A, B. subst o. split; [reflexivity|exact B]. Qed.
+
+(* and it deleted the remote-tracking branch origin/bugs/fix of the user *)
+Lemma removeall_v1_refuted : exists s n, wf s /\ is_gbref n = false /\ has_ref n (refs s) = true /\
+  snd (ent_remove_all_v1 (remotes s) KBug (refs s)) = OOk /\ has_ref n (fst (ent_remove_all_v1 (remotes s) KBug (refs s))) = false.
+Proof. exists (with_refs s_demo ((mkrn KBug (Track 1%N) name_fix, 9%N) :: refs s_demo)), (mkrn KBug (Track 1%N) name_fix). split.
+  - intros n h r H L. unfold s_demo in H. cbn [refs with_refs] in H.
+    destruct H as [E|[E|[E|[E|[E|[E|[]]]]]]]; inversion E; subst; cbn in L; inversion L; left; reflexivity.
+  - repeat split; vm_compute; reflexivity. Qed.
+
+(* a BugCache / IdentityCache resolved before the removal of its entity wrote the ref again (and then reported
+   "entity missing from cache"): after the next rebuild the removed entity was back *)
+Definition stale_commit_v1 (k : kind) (i : id) (h : N) (s : st) : st := with_refs s (set_ref (mkrn k Local i) h (refs s)).
+Lemma stale_commit_v1_refuted : exists s k i h, wf s /\ snd (cache_remove k i s) = OOk /\
+  mem_ent (k, i) (map fst (exc (rebuild (fun _ _ c => c) (stale_commit_v1 k i h (fst (cache_remove k i s)))))) = true.
+Proof. exists s_demo, KBug, id_ab, 2%N. split; [exact s_demo_wf|]. split; vm_compute; reflexivity. Qed.
+
+(* the repaired RemoveAll on a repository holding both kinds of foreign names: it succeeds, the copy refs/bugs/old is
+   gone with the bugs, the remote-tracking branch origin/bugs/fix is still there *)
+Lemma s_demo2_removeall :
+  has_ref (mkrn KBug Local name_old) (ent_remove_all (remotes s_demo2) KBug (refs s_demo2)) = false /\
+  has_ref (mkrn KBug (Track 1%N) name_fix) (ent_remove_all (remotes s_demo2) KBug (refs s_demo2)) = true /\
+  snd (ent_remove_all_v1 (remotes s_demo2) KBug (refs s_demo2)) = EOther.
+Proof. repeat split; vm_compute; reflexivity. Qed.
